@@ -9,6 +9,18 @@ COMMON_ASSUMPTIONS = [
 ]
 
 PROPS = {
+    "C13": {
+        "level": "exploration",
+        "exhaustive": True,
+        "rule": "exhaustive grids, split over shards: (1) single parameter: 25 labels (19 registered, unknown int/negative/unassigned, tstr, empty tstr) x 29 value kinds (uint, zero, negative, six text shapes, bstr, arrays of labels incl. the label itself, map, bool, null, float, countersignature object / with headers / list / list of 3 / [null] / crit inside its unprotected / empty signature / 2-array) x {protected, unprotected} x 7 contexts (bare ProtectedHeader / UnprotectedHeader, Sign1, untagged Sign1, Signature, Countersignature, COSE_Sign body) x every fitting Go integer spelling of the label; (2) IV and Partial IV in every bucket combination x 10x10 spellings x contexts; (3) crit with 8x9 entry combinations (present/absent int and text labels, bstr, float, null, crit itself) x 10x10 spellings of crit entry and referenced key, also placed in unprotected; (4) a conforming registered parameter next to any second parameter/value in the same bucket; plus rapid-random conforming headers (up to 20 entries, random spellings) with 0-3 rule-relevant edits. Oracle per cell: V_enc = library verdict on encoding the Go value, V_dec = library verdict on decoding the reference encoding of the same abstract header set, V_ref = reference RFC 9052 3.1 verdict; asserted: accepted in either direction => V_ref ok; V_enc == V_dec; V_enc identical when all labels are re-spelt with each of the 10 Go integer types. Non-trivial = every grid cell (each involves a registered label, a pair rule or a label/value type rule) and every random case with at least one edit; distinct by cell id / header hash.",
+        "parts": [
+            {"test": "TestC13_Grid", "quick": 1, "thorough": 1, "shards_quick": 8, "shards_thorough": 8},
+            {"test": "TestC13_Random", "quick": 2500, "thorough": 60000, "shards_quick": 4, "shards_thorough": 16},
+        ],
+        "required_classes": ["verdict/accepted", "verdict/refused", "ctx/protected", "ctx/unprotected", "ctx/sign1", "ctx/untagged", "ctx/signature",
+                             "ctx/countersignature", "ctx/sign-body", "edits/0", "edits/1", "edits/2", "edits/3"],
+        "assumptions": COMMON_ASSUMPTIONS + ["'valid => accepted' is not asserted here (C07 owns it); the library is stricter than RFC 9052 on textual content types (exactly one '/', no outer blanks), counted as refused-though-conforming"],
+    },
     "C04": {
         "level": "exploration",
         "exhaustive": True,
